@@ -229,4 +229,75 @@ a public member of the same name -/
 def shadowH : Hier := [⟨1, none, []⟩, ⟨2, some 1, []⟩]
 def shadowD : Decls := fun n => if n = 1 then some .priv else if n = 2 then some .pub else none
 
+/-! ### Round 7: the judged class -/
+
+theorem canAccessDeclaredJ_nearest (H : Hier) (fb : Fallback) (D : Decls) (scope : Option Name) (r : Name) (m : Mod) :
+    canAccessDeclaredJ H fb .nearest D scope r m = canAccessDeclared H fb D scope r m := by
+  unfold canAccessDeclaredJ canAccessDeclared
+  cases findDecl H D (fuel H) (some r) with
+  | none => rfl
+  | some decl =>
+    cases decl with
+    | none => simp [judgedClass]
+    | some d => by_cases hm : m = .prot <;> simp [judgedClass, hm]
+
+theorem accessJ_nearest (H : Hier) (fb : Fallback) (D : Decls) (scope : Option Name) (r : Name) :
+    accessJ H fb .nearest D scope r = access H fb D scope r := by
+  unfold accessJ access
+  simp only [canAccessDeclaredJ_nearest]
+
+/-- two sibling classes 2 and 3 under 1; the receiver's class 3 declares the member protected, the common ancestor
+declares the name too -/
+def sibH : Hier := [⟨1, none, []⟩, ⟨2, some 1, []⟩, ⟨3, some 1, []⟩]
+def sibD (root : Mod) : Decls := fun n => if n = 1 then some root else if n = 3 then some .prot else none
+
+theorem sibH_not_sub_32 : ¬ Sub sibH 3 2 := by
+  intro h
+  obtain ⟨p, hp, hs⟩ := Sub.cases_ne h (by decide)
+  have : extOf sibH 3 = some 1 := by decide
+  rw [this] at hp; cases hp
+  exact absurd (sub_of_root (by decide) hs) (by decide)
+
+theorem sibH_not_sub_23 : ¬ Sub sibH 2 3 := by
+  intro h
+  obtain ⟨p, hp, hs⟩ := Sub.cases_ne h (by decide)
+  have : extOf sibH 2 = some 1 := by decide
+  rw [this] at hp; cases hp
+  exact absurd (sub_of_root (by decide) hs) (by decide)
+
+/-- PHP's rule refuses code of 2 on an object of 3, whatever the root declares -/
+theorem sib_not_allowedOn (root : Mod) : ¬ allowedOn sibH (sibD root) (some 2) 3 := by
+  intro h
+  cases h with
+  | inl h1 =>
+    obtain ⟨s, hs, hsub, _⟩ := h1
+    cases hs
+    exact sibH_not_sub_32 hsub
+  | inr h2 =>
+    obtain ⟨d, m, hn, hm, hal⟩ := h2
+    have hn3 : Nearest sibH (sibD root) 3 3 := ⟨Sub.refl 3, by simp [sibD], fun c hc _ => hc⟩
+    have hacy : ∀ x, Sub sibH d x → Sub sibH x d → True := fun _ _ _ => trivial
+    have hd3 : Sub sibH d 3 := hn.2.2 3 (Sub.refl 3) (by simp [sibD])
+    have h3d : Sub sibH 3 d := hn.1
+    have hd : d = 3 := by
+      by_cases e : d = 3
+      · exact e
+      · exfalso
+        obtain ⟨p, hp, hs⟩ := Sub.cases_ne h3d (fun x => e x.symm)
+        have : extOf sibH 3 = some 1 := by decide
+        rw [this] at hp; cases hp
+        have := sub_of_root (by decide) hs
+        subst this
+        exact absurd (sub_of_root (by decide) hd3) (by decide)
+    subst hd
+    have hm' : m = .prot := by
+      have : sibD root 3 = some .prot := by simp [sibD]
+      rw [this] at hm; exact (Option.some.inj hm).symm
+    subst hm'
+    obtain ⟨c, hc, hrel⟩ := hal
+    cases hc
+    cases hrel with
+    | inl x => exact sibH_not_sub_23 x
+    | inr x => exact sibH_not_sub_32 x
+
 end Proofs.AccessDecl
